@@ -44,7 +44,7 @@ ASSUMPTIONS = [
     "not judged between 'all scheduled' and 'all completed'; machine-level duration sums and "
     "remaining-operation counts only on non-flexible instances; filters only with positive durations",
 ]
-REQUIRED_COUNTERS = {"values_checked": 20000, "composite_checks": 300, "constructions": 500,
+REQUIRED_COUNTERS = {"episodes_after_reset": 50, "values_checked": 20000, "composite_checks": 300, "constructions": 500,
                      "obs_EarliestStartTimeObserver": 50, "obs_DurationObserver": 50,
                      "obs_IsReadyObserver": 50, "obs_IsScheduledObserver": 50,
                      "obs_PositionInJobObserver": 50, "obs_RemainingOperationsObserver": 50,
@@ -66,6 +66,9 @@ def gen_cases(ctx):
         mode = rng.choice(["all_composite", "all_composite", "single", "single", "subset"])
         c["kind"] = "history"
         c["mode"] = mode
+        # a reset (after a partial or complete episode) followed by another episode
+        c["episodes"] = rng.choice([1, 1, 2, 3])
+        c["abandon"] = rng.random() < 0.5
         if mode == "single":
             t = TYPES[i % 7]
             sup = SUPPORTED.get(t, FT)
@@ -299,7 +302,18 @@ def run_history(ctx, case):
     now, avail = state()
     ok = compare(ctx, run, observers, now, avail, step_info)
     nontrivial = False
-    while ok and not run.done():
+    episodes_left = case.get("episodes", 1) - 1
+    while ok and (not run.done() or episodes_left > 0):
+        if run.done() or (episodes_left > 0 and case.get("abandon") and r.history
+                          and rng.random() < 0.15):
+            episodes_left -= 1
+            d.reset(); r.reset(); clock_after_dispatch.clear()
+            ctx.count("episodes_after_reset")
+            now, avail = state()
+            ok = compare(ctx, run, observers, now, avail, step_info)
+            if comp is not None:
+                check_composite(ctx, comp, parts, "after reset")
+            continue
         pol = case["policy"]
         if case.get("history"):
             o, m = case["history"][len(r.history)]
